@@ -27,6 +27,7 @@
 #include <complex.h>
 #include <ctype.h>
 #include <errno.h>
+#include <limits.h>
 #include <math.h>
 #include <stdarg.h>
 #include <stdio.h>
@@ -82,15 +83,26 @@ static int parse_int(vnacal_load_state_t *vlsp,
 	yaml_node_t *node, int *result)
 {
     vnacal_t *vcp = vlsp->vls_vcp;
-    char extra;
+    const char *text;
+    char *end;
+    long value;
 
     if (node->type != YAML_SCALAR_NODE) {
 	goto error;
     }
-    if (sscanf((const char *)node->data.scalar.value, "%d %c",
-		result, &extra) != 1) {
+    text = (const char *)node->data.scalar.value;
+    errno = 0;
+    value = strtol(text, &end, 10);
+    if (end == text || errno != 0 || value < INT_MIN || value > INT_MAX) {
 	goto error;
     }
+    while (isspace((unsigned char)*end)) {
+	++end;
+    }
+    if (*end != '\000') {
+	goto error;
+    }
+    *result = (int)value;
     return 0;
 
 error:
@@ -1152,6 +1164,29 @@ static int parse_set(vnacal_load_state_t *vlsp, yaml_node_t *node)
 		"%s (line %ld) error: missing required field \"type\"",
 		vcp->vc_filename, node->start_mark.line + 1);
 	return -1;
+    }
+
+    /*
+     * Validate the dimensions.  A valid file has at least one node per
+     * row, column and frequency, which bounds what we're willing to
+     * allocate on the word of the header fields.
+     */
+    {
+	long nodes = vlsp->vls_document.nodes.top -
+		     vlsp->vls_document.nodes.start;
+	bool is_t = (type == VNACAL_T8 || type == VNACAL_TE10 ||
+		     type == VNACAL_T16);
+
+	if (rows < 1 || columns < 1 || rows > nodes || columns > nodes ||
+		frequencies > nodes ||
+		(is_t ? rows > columns : rows < columns)) {
+	    _vnacal_error(vcp, VNAERR_SYNTAX,
+		    "%s (line %ld) error: invalid dimensions %d x %d with "
+		    "%d frequencies for type %s",
+		    vcp->vc_filename, node->start_mark.line + 1,
+		    rows, columns, frequencies, vnacal_type_to_name(type));
+	    return -1;
+	}
     }
     _vnacal_layout(&vl, type, rows, columns);
     if ((calp = _vnacal_calibration_alloc(vcp, type, rows, columns,
